@@ -265,7 +265,7 @@ def record(mode, shape, env):
 def leg_c(ctx, rng):
     ntr = 60 if ctx.quick else 600
     big = 130 if ctx.quick else 700
-    traces = []
+    traces, envs = [], []
     for t in range(ntr):
         mode = ('ol', 'oll', 'payload')[t % 3]
         if mode == 'oll':
@@ -290,11 +290,12 @@ def leg_c(ctx, rng):
             ctx.skip('result not produced through hashlib.blake2b')
             continue
         traces.append(tr)
+        envs.append([[list(k), v.hex()] for k, v in env.items()])
         ctx.count(('c', t), nontrivial=max(shape, default=0) >= 2 or len(shape) >= 2)
-    validate_traces(ctx, traces, 'C31:trace')
+    validate_traces(ctx, traces, 'C31:trace', envs)
 
 
-def validate_traces(ctx, traces, sig):
+def validate_traces(ctx, traces, sig, envs=None):
     if not traces:
         return
     tf = os.path.join(ctx.wd, 'traces.json')
@@ -309,7 +310,7 @@ def validate_traces(ctx, traces, sig):
         cls = {'returned digest is not the reference root': 'not-reference-tree', 'returned value is not a recorded digest': 'result-not-hashed'}.get(v[3], 'malformed')
         ctx.mismatch('%s:%s:%s:%s' % (sig, tr['mode'], lenclass(n), cls),
                      'recorded blake2b evaluations of %s over lengths %s do not form the reference Merkle tree: %s' % (tr['mode'], tr['shape'], v[3]),
-                     {'trace': tr})
+                     {'trace': tr, 'env': envs[v[1] - 1] if envs else None})
     ctx.traces += len(traces) - len(set(v[1] for v in rejects))
     small = [t for t in traces if 2 <= sum(t['shape']) <= 4]
     if small:
@@ -325,7 +326,11 @@ def replay(ctx, rep):
         env = {tuple(k): bytes.fromhex(v) for k, v in c['env']}
         ok = compare(ctx, c['mode'], tuple(c['shape']), tup(c['root']), env)
     elif 'trace' in c:
-        validate_traces(ctx, [c['trace']], 'C31:trace')
+        tr = c['trace']
+        if c.get('env'):      # record the call again from the current implementation
+            env = {tuple(k): bytes.fromhex(v) for k, v in c['env']}
+            tr, _ = record(tr['mode'], tuple(tr['shape']), env)
+        validate_traces(ctx, [tr], 'C31:trace', [c.get('env')])
         ok = not ctx.mismatches
     else:
         ok = True
